@@ -92,6 +92,6 @@ pub fn run(ctx: &mut Ctx) {
     }
     ctx.mark_exhaustive("sentinel-neighbourhood", "every optional numeric field of every specified shape x {code, code+-1, code+-2, 0, 1, 2, max, max-1, both sides of the sign bit, every one-hot raw, the code at the other resolution} x random neighbours");
 
-    let n = ctx.tier.pick(40_000, 1_500_000);
+    let n = ctx.tier.pick(200_000, 1_500_000);
     ctx.run_proptest("random-assignments", &STD, n, payload_inputs(SUPPORTED.to_vec(), LenMode::Standard, Prop::C11, 8, 0.10), check);
 }
